@@ -17,7 +17,7 @@ Definition sel (distinct : bool) (tbl : string) (items : list (sel_item stmt)) :
              s_items := items; s_distinct := distinct; s_order := []; s_limit := None; s_offset := None |}.
 
 Definition ex_ctx : qctx :=
-  {| c_data := [("t", VArr t_rows); ("u", VArr u_rows)]; c_ctes := []; c_busy := [] |}.
+  {| c_data := [("t", VArr t_rows); ("u", VArr u_rows)]; c_ctes := []; c_busy := []; c_up := [] |}.
 
 (* SELECT DISTINCT * FROM t : first occurrences, in order; the three look-alike rows all survive *)
 Example distinct_star_runs :
